@@ -360,3 +360,141 @@ func ruleDUPLEX(c *Checker) {
 	}
 	c.floor("DUPLEX", 6)
 }
+
+// ruleCBCTX: the mailbox transport callbacks (and the reconnect helpers they call) run on the
+// gbn connection's goroutines with the context gbn hands them; gbn.Close cancels exactly that
+// context and then waits for the goroutines. So every loop in these functions must poll the
+// context PARAMETER (not a context or quit channel of the mailbox connection, which only fire
+// after gbn.Close has returned), and that leg must leave the function; and the context they
+// pass on to the helpers is that parameter.
+func ruleCBCTX(c *Checker, rule string) {
+	w := c.w
+	names := []string{
+		"(*mailbox.ClientConn).send", "(*mailbox.ClientConn).recv", "(*mailbox.ClientConn).createSendMailBox", "(*mailbox.ClientConn).createReceiveMailBox",
+		"(*mailbox.ServerConn).sendToStream", "(*mailbox.ServerConn).recvFromStream", "(*mailbox.ServerConn).createSendMailBox", "(*mailbox.ServerConn).createReceiveMailBox",
+	}
+	for _, n := range names {
+		fn := w.Func(n)
+		if fn == nil {
+			c.anchorFail(n)
+			continue
+		}
+		var ctxp *ssa.Parameter
+		for _, p := range fn.Params {
+			if nt := namedOf(p.Type()); nt != nil && nt.Obj().Pkg() != nil && nt.Obj().Pkg().Path() == "context" && nt.Obj().Name() == "Context" {
+				ctxp = p
+			}
+		}
+		short := strings.Replace(strings.TrimPrefix(n, "(*mailbox."), ")", "", 1)
+		if ctxp == nil {
+			c.fail(rule, short+"|context parameter", fn.Pos(), "the callback has no context parameter")
+			continue
+		}
+		// blocks that poll ctxParam.Done() in a select whose leg returns
+		breaker := map[*ssa.BasicBlock]bool{}
+		allInstrs(fn, func(in ssa.Instruction) {
+			sel, ok := in.(*ssa.Select)
+			if !ok {
+				return
+			}
+			cases, _ := w.selectCases(sel)
+			for _, sc := range cases {
+				if sc.IsSend {
+					continue
+				}
+				call, ok := unwrapLoadAlloc(sc.Chan).(*ssa.Call)
+				if !ok || !call.Common().IsInvoke() || call.Common().Method.Name() != "Done" || !sameParam(call.Common().Value, ctxp) {
+					continue
+				}
+				if sc.Body != nil && blockLeaves(sc.Body, 0) {
+					breaker[sel.Block()] = true
+				}
+			}
+		})
+		// a cycle that avoids every breaker block?
+		cyc := cycleAvoiding(fn, breaker)
+		c.decide(cyc == nil, rule, short+"|every loop polls the context it was given", fn.Pos(),
+			"every cycle passes a select with a returning case on the context parameter's Done()",
+			"a loop of this callback does not poll the context it was handed by gbn (at "+posOf(w, cyc)+"): gbn.Close cancels that context and then waits for the goroutine, so Close hangs while the relay is unreachable")
+		// the context passed on to same-package helpers and to the relay is the parameter
+		bad := ""
+		allInstrs(fn, func(in ssa.Instruction) {
+			ci, ok := in.(ssa.CallInstruction)
+			if !ok {
+				return
+			}
+			for _, a := range ci.Common().Args {
+				nt := namedOf(a.Type())
+				if nt == nil || nt.Obj().Pkg() == nil || nt.Obj().Pkg().Path() != "context" || nt.Obj().Name() != "Context" {
+					continue
+				}
+				if !sameParam(a, ctxp) && unwrapLoadAlloc(a) != ssa.Value(ctxp) {
+					bad = calleeLabel(ci.Common()) + " at " + w.pos(instrPos(ci))
+				}
+			}
+		})
+		c.decide(bad == "", rule, short+"|passes on the context it was given", fn.Pos(), "every context argument is the context parameter",
+			"a call ("+bad+") is given another context than the one gbn handed to the callback: cancelling the connection's context does not interrupt it")
+	}
+}
+
+// blockLeaves: every path from b (a few blocks, no loops) ends in a Return.
+func blockLeaves(b *ssa.BasicBlock, depth int) bool {
+	if depth > 6 || len(b.Instrs) == 0 {
+		return false
+	}
+	switch b.Instrs[len(b.Instrs)-1].(type) {
+	case *ssa.Return:
+		return true
+	case *ssa.Jump:
+		return blockLeaves(b.Succs[0], depth+1)
+	case *ssa.If:
+		return blockLeaves(b.Succs[0], depth+1) && blockLeaves(b.Succs[1], depth+1)
+	}
+	return false
+}
+
+// cycleAvoiding returns a block on a cycle of fn's CFG that does not pass any breaker block
+// (nil if every cycle passes one).
+func cycleAvoiding(fn *ssa.Function, breaker map[*ssa.BasicBlock]bool) *ssa.BasicBlock {
+	state := map[*ssa.BasicBlock]int{} // 1 = on stack, 2 = done
+	var found *ssa.BasicBlock
+	var dfs func(b *ssa.BasicBlock)
+	dfs = func(b *ssa.BasicBlock) {
+		if found != nil || breaker[b] {
+			return
+		}
+		state[b] = 1
+		for _, s := range b.Succs {
+			if breaker[s] || !edgeFeasible(b, s) {
+				continue
+			}
+			switch state[s] {
+			case 0:
+				dfs(s)
+			case 1:
+				found = s
+				return
+			}
+		}
+		state[b] = 2
+	}
+	for _, b := range fn.Blocks {
+		if state[b] == 0 {
+			dfs(b)
+		}
+	}
+	return found
+}
+
+func posOf(w *World, b *ssa.BasicBlock) string {
+	if b == nil || len(b.Instrs) == 0 {
+		return "-"
+	}
+	for _, in := range b.Instrs {
+		if in.Pos().IsValid() {
+			return w.pos(in.Pos())
+		}
+	}
+	return "-"
+}
